@@ -451,6 +451,38 @@ func TestSub_ends(t *testing.T) {
 					}
 				}
 			}
+			if vk.Pick(0, 1) == 0 {
+				continue
+			}
+			// thorough: three sites in each of the 8 orientation triples, every gap from {0, 1, 2, 3, reach-1, reach, reach+1}
+			gaps := []int{0, 1, 2, 3, reach - 1, reach, reach + 1}
+			for o := 0; o < 8; o++ {
+				site := func(bit int) string {
+					if o>>bit&1 == 1 {
+						return rs
+					}
+					return e.Site
+				}
+				for _, g0 := range gaps {
+					for _, g1 := range gaps {
+						for _, g2 := range gaps {
+							for _, g3 := range gaps {
+								k++
+								fill := vk.Fill(uint64(k)+vk.Seed(), g0+g1+g2+g3, "ACGT")
+								seq := fill[:g0] + site(0) + fill[g0:g0+g1] + site(1) + fill[g0+g1:g0+g1+g2] + site(2) + fill[g0+g1+g2:]
+								for len(seq) < 20 {
+									seq += "T"
+								}
+								c := Case{Enzyme: e, ByName: e.Name != "custom" && k%2 == 0, Seq: seq, Circular: k%4 == 0}
+								c.AllRotations = c.Circular
+								if !yield(c) {
+									return
+								}
+							}
+						}
+					}
+				}
+			}
 		}
 	})
 }
